@@ -243,6 +243,12 @@ pub fn history(a: &[&str], full: bool) -> String {
         } else if let Some(h) = op.strip_prefix("a:") {
             src.0.borrow_mut().extend(unhex(h));
             res.push_str("app");
+        } else if let Some(h) = op.strip_prefix("r:") {
+            // a fresh reader over exactly these bytes (same decoder state)
+            src.0.borrow_mut().clear();
+            src.0.borrow_mut().extend(unhex(h));
+            reader = H263Reader::from_source(src.clone());
+            res = decode_once(&mut st, &mut reader, o);
         } else if op == "n" {
             res = decode_once(&mut st, &mut reader, o);
         } else if op == "c" {
